@@ -48,12 +48,13 @@ def tests(R):
     R.ob('C12.tests', 'sendall inside a section of the session lock', bool(sec), 'sendall outside `with self._lock`', func=q, node=c)
     for prop in ('is_closed', 'is_closing'):
         ts = [t for t in g.live_nodes() if t.kind == 'test' and U(t.ast) == 'self.websocket.' + prop]
-        inside = [t for t in ts if sec & set(w for (w, _) in lock_frames(R, g, t))]
+        # the fact must be established *inside* the critical section: on every path from the `with` to sendall
         bad = []
-        for l in path_conditions(R, g, rd, g.entry, n):
-            if not any((a, False) in l for a in ('self.websocket.state.%s' % prop[3:], 'self.websocket.' + prop)):
-                bad.append(sorted(l))
-        ok = bool(inside) and not bad and all(all_paths_pass(g, [g.entry], inside, [n], skip_edge=nx) for _ in [0])
+        for w in sec or [g.entry]:
+            for l in path_conditions(R, g, rd, w, n):
+                if not any((a, False) in l for a in ('self.websocket.state.%s' % prop[3:], 'self.websocket.' + prop)):
+                    bad.append(sorted(l))
+        ok = bool(sec) and not bad
         R.ob('C12.tests', '%s tested under the lock on every path to sendall' % prop, ok,
              'write() can reach sendall without testing %s inside the critical section (check-then-lock or a bypass): a send '
              'that loses the race against close() is written after the Close frame' % prop, func=q,
